@@ -270,9 +270,31 @@ package kafka
 //@ func (*partitionWriter).awaitBatch
 //@   option noframe
 //@   callsite (*batchQueue).Put requires held(ptw.mutex) && $1 != nil && $1.size >= 1 && $1.size <= ptw.w.batchSize() && $1.bytes <= ptw.w.batchBytes()
+//@ property C08 C07 C01 C10 C09
+// close hands the open batch to the queue BEFORE closing the queue (a closed queue drops what is put into it, and the
+// batch's Completion / done would never happen: Writer.Close would lose or hang on accepted messages).
 //@ func (*partitionWriter).close
+//@   requires !ptw.$qclosed
 //@   option noframe
 //@   callsite (*batchQueue).Put requires held(ptw.mutex) && $1 != nil && $1.size >= 1 && $1.size <= ptw.w.batchSize() && $1.bytes <= ptw.w.batchBytes()
+//@   callsite (*batchQueue).Put requires !ptw.$qclosed
+//@   callsite (*batchQueue).Close modifies ptw.$qclosed
+//@   callsite (*batchQueue).Close ensures ptw.$qclosed
+//@   ensures ptw.$qclosed && ptw.currBatch == nil
+// the sender loop of a partition: a dequeued batch (with all its retries) is finished before the next one is taken.
+//@ func (*partitionWriter).writeBatch
+//@   trusted sends one batch with its retries, completes it and runs its Completion callback (the retry rules are under C01's produce contract)
+//@   modifies ptw.$inflight
+//@   ensures !ptw.$inflight
+//@ func (*partitionWriter).writeBatches
+//@   requires !ptw.$inflight
+//@   option noframe
+//@   modifies heap
+//@   callsite (*batchQueue).Get requires !ptw.$inflight
+//@   callsite (*batchQueue).Get modifies ptw.$inflight
+//@   callsite (*batchQueue).Get ensures result != nil ==> ptw.$inflight
+//@   loop 0 invariant !ptw.$inflight
+//@ property C08 C07 C01 C10
 //@ func (*Writer).stats
 //@   trusted statistics only
 //@ func (*summary).observe
@@ -855,8 +877,11 @@ package kafka
 //@   pure
 //@ func makeDuration
 //@   pure
+//@ property C19 C01 C02 C03 C11
+// a response error code other than 0 is always reported as an error (negative codes included: -1 is UNKNOWN_SERVER_ERROR)
 //@ func makeError
 //@   ensures (code == 0) == (result == nil)
+//@ property C19
 //@ func (*Client).ListOffsets
 //@   option noframe
 //@   modifies heap
@@ -1167,3 +1192,19 @@ package kafka
 //@   callsite (*writeBuffer).Flush requires wb.$wn == old(wb.$wn) + 4 + int(h.Size)
 //@   loop 0 invariant -1 <= rangeindex && rangeindex < len(msgs) && cw != nil && len(msgs) <= 1000 && size == messageSetSize(msgs) && wb.$wn == old(wb.$wn) + 4 + int(h.Size) - int(size) + int(messageSetSize(msgs[:rangeindex+1]))
 //@   loop 0 invariant forall k :: 0 <= k && k < len(msgs) ==> len(msgs[k].Key) <= 0x100000 && len(msgs[k].Value) <= 0x100000
+
+//@ property C03
+
+// commitOffsetsWithRetry reports success only if an attempt was acknowledged by the coordinator: an interrupted back-off
+// or exhausted retries return the last failure.
+//@ func sleep
+//@   trusted waits for the duration or for the context to be done
+//@ func backoff
+//@   trusted computes the back-off delay
+//@ func (*Reader).commitOffsetsWithRetry
+//@   option noframe
+//@   modifies heap
+//@   callsite (*Generation).CommitOffsets modifies gen.$lastok
+//@   callsite (*Generation).CommitOffsets ensures gen.$lastok == (result == nil)
+//@   ensures err == nil && retries > 0 ==> gen.$lastok
+//@   loop 0 invariant 0 <= attempt && (attempt > 0 ==> err != nil)
